@@ -1,3 +1,2 @@
 import JominiModel.Props.C03
-open Jomini.Props.C03
-#print axioms C03_nextState_table
+#print axioms Jomini.Props.C03.C03_nextState_table
